@@ -68,13 +68,16 @@ def nullable_enum(rng):
     return {"type": ["string", "null"], "enum": rng.sample(["a", "b", "c d"], 2) + [None]}
 
 
-def prop(rng, names, depth):
+def prop(rng, names, depth, member=True):
     r = rng.random()
     if r < 0.45 or depth >= 2:
         s = scalar(rng)
-        if rng.random() < 0.12:
+        q = rng.random()
+        if q < 0.08:
             s = {"type": [s["type"], "null"]}
-        elif rng.random() < 0.08:
+        elif q < 0.16:
+            s["type"] = [s["type"], "null"]          # nullable, constraints kept
+        elif q < 0.24:
             s = nullable_enum(rng)
         return s
     if r < 0.55:
@@ -82,7 +85,8 @@ def prop(rng, names, depth):
     if r < 0.6:
         return {"const": rng.choice(["k", 7])}
     if r < 0.72:
-        a = {"type": "array", "items": prop(rng, names, depth + 1)}
+        # (a nullable array below member level loses its nullability: known finding C03-nested-nullable-array)
+        a = {"type": rng.choice(["array", "array", "array", ["array", "null"]]) if member else "array", "items": prop(rng, names, depth + 1, member=False)}
         if rng.random() < 0.5:
             a["minItems"] = rng.choice([0, 1, 2])
         if rng.random() < 0.4:
@@ -109,7 +113,7 @@ def prop(rng, names, depth):
     return obj(rng, names, depth + 1)
 
 
-def obj(rng, names, depth=0, base=None):
+def obj(rng, names, depth=0, base=None, inherited=()):
     n = rng.choice([1, 2, 3, 4])
     pnames = rng.sample(["id", "name", "first-name", "class", "value", "count", "tags", "x_y", "Self", "data", "n1", "kind"], n)
     props = {p: prop(rng, names, depth) for p in pnames}
@@ -121,6 +125,9 @@ def obj(rng, names, depth=0, base=None):
         o["additionalProperties"] = False
     if base and rng.random() < 0.6:
         o["allOf"] = [{"$ref": "#/definitions/" + base}]
+        if inherited and rng.random() < 0.4:
+            # the child requires members it inherits
+            o["required"] = sorted(set(o.get("required", [])) | set(rng.sample(inherited, rng.choice([1, min(2, len(inherited))]))))
     if depth == 0 and rng.random() < 0.15 and "additionalProperties" not in o:
         # the same object written as sibling allOf branches: parent, properties, required
         parts = list(o.pop("allOf", []))
@@ -143,7 +150,8 @@ def gen_document(rng):
             defs[nm] = d
             continue
         base = names[i - 1] if i > 0 and rng.random() < 0.3 and defs[names[i - 1]].get("type") == "object" and "additionalProperties" not in defs[names[i - 1]] else None
-        defs[nm] = obj(rng, names[: i + 1] if rng.random() < 0.5 else names[:i], 0, base)
+        inherited = sorted((defs[base].get("properties") or {})) if base else ()
+        defs[nm] = obj(rng, names[: i + 1] if rng.random() < 0.5 else names[:i], 0, base, inherited)
     root = obj(rng, names, 0)
     root["title"] = "Root"
     root["definitions"] = defs
